@@ -212,6 +212,7 @@ class C02(Prop):
             for nm in ("only_block", "second_after_inline", "after_block", "append", "nested_lists", "tagify_list"):
                 gens.append({"kind": "child", "s": cps(s), "shape": nm, "prime": True})
             gens.append({"kind": "fn", "s": cps(s), "prime": True})
+            gens.append({"kind": "child", "s": cps(s), "shape": "only_block"})          # un-primed twin (C18's history check)
         for n_ in [HostileInt(3), HostileFloat(2.5)]:
             for nm in ("only_block", "only_inline", "second_after_inline", "append", "nested_lists", "insert0", "extend"):
                 gens.append({"kind": "num", "n": repr(n_), "shape": nm})
@@ -390,6 +391,7 @@ class C04(Prop):
             for nm in ("only_block", "only_inline", "second_after_inline", "after_block", "taglist_only"):
                 gens.append({"kind": "html_child", "s": cps(p), "shape": nm, "prime": True})
             gens.append({"kind": "html_attr", "s": cps(p), "way": "kw", "prime": True})
+            gens.append({"kind": "html_child", "s": cps(p), "shape": "only_block"})     # un-primed twin (C18's history check)
         cat = gamma.catalogue()
         for mod in ("tags", "svg"):
             for j, nm in enumerate(cat[mod]):
